@@ -6,3 +6,4 @@ import Ptn.Common.AnalysisIso
 import Ptn.Common.AnalysisExp
 import Ptn.Common.AnalysisLocal
 import Ptn.Common.AnalysisTelescope
+import Ptn.Common.AnalysisProj
